@@ -41,6 +41,8 @@ def main():
     ap.add_argument("--tier", default="quick")
     ap.add_argument("--skip-tests", action="store_true")
     ap.add_argument("--seed", default="1")
+    ap.add_argument("--no-record", action="store_true",
+                    help="do not touch seeded/<id>/meta.json")
     a = ap.parse_args()
     src = os.path.abspath(a.src)
     patch = os.path.join(src, "patch.diff")
@@ -108,7 +110,8 @@ def main():
         for p in props:
             ev = os.path.join(VERIF, "evidence", f"{p}.json")
             bak = open(ev).read() if os.path.exists(ev) else None
-            e2 = dict(os.environ, VERIF_REPO=wt, VERIF_SEED=a.seed)
+            e2 = dict(os.environ, VERIF_REPO=wt, VERIF_SEED=a.seed,
+                      VERIF_EVIDENCE_DIR=os.path.join(tmp, "evidence"))
             e2.pop("VERIF_REEXEC", None)
             e2.pop("PYTHONHASHSEED", None)
             r = sh([os.path.join(VERIF, "vcheck"), p, "--tier", a.tier],
@@ -170,7 +173,8 @@ def finish(a, src, meta, res, ran, props, caught):
     for p, c in caught.items():
         cb[f"{p}:{a.tier}"] = c
     m["caught_by"] = cb
-    json.dump(m, open(mp, "w"), indent=1)
+    if not a.no_record:
+        json.dump(m, open(mp, "w"), indent=1)
     print(json.dumps(dict(id=a.sid, confirmed=res.get("confirmed"),
                           caught={k: v["exit"] for k, v in caught.items()},
                           sigs={k: v["signatures"][:4]
